@@ -327,11 +327,16 @@ def run(ctx):
             for st in bb["s"]:
                 if st["k"] == "assign" and st["rv"]["k"] == "aggr" and st["rv"].get("adt", "").endswith("bytes_ref::BytesRef"):
                     ctors.append((k, f))
-    bad = [k for (k, f) in ctors if not (f.get("name") == "try_from" and f.get("impl_trait") == "core::convert::TryFrom")
-           and not f.get("derived")]
+    def in_try_from(f):
+        if f.get("name") == "try_from" and f.get("impl_trait") == "core::convert::TryFrom":
+            return True
+        # a closure written inside try_from (e.g. `check(..).map(|()| Self {..})`) is part of try_from
+        root = F.fns.get(f.get("root")) if f.get("closure") and f.get("root") else None
+        return root is not None and root.get("name") == "try_from" and root.get("impl_trait") == "core::convert::TryFrom"
+    bad = [k for (k, f) in ctors if not in_try_from(f) and not f.get("derived")]
     ctx.check(len(ctors) >= 1 and not bad, "B2", "BytesRef:constructors",
               "BytesRef {..} is constructed only in TryFrom::try_from (and its derived Clone)", "",
-              how="%d construction sites: %s" % (len(ctors), sorted({f.get("name") for _, f in ctors})),
+              how="%d construction sites: %s" % (len(ctors), sorted({str(f.get("name")) for _, f in ctors})),
               why="other construction sites: %s" % bad)
     bf = [a for k, a in F.adts.items() if k.startswith("generic ") and a.get("name") == "BytesRef"]
     ctx.check(len(bf) == 1 and all(not fl["pub"] for fl in bf[0].get("fields", [])), "B2", "BytesRef:fields",
